@@ -1,4 +1,6 @@
-// Package c03 builds, for every candidate of spec/Agreement.tla ("cands" mode), the real, really
+// Package c03 builds, for every candidate of spec/Agreement.tla ("cands" mode: every candidate of a
+// small suffrage; "orbits" mode: the candidates of a larger suffrage up to a renaming of the nodes,
+// in the placement with the fewest common signers - same record format, any n), the real, really
 // signed voteproof object (INIT/ACCEPT, plain / expel / stuck, with the structural mutation the
 // candidate names) and reports the verdicts of the two real validators:
 // vp.IsValid(networkID) and isaac.IsValidVoteproofWithSuffrage(vp, suffrage)   (binding A).
